@@ -192,3 +192,20 @@ contract(
     name="check_options",
     native=False,
 )
+
+# ---------------------------------------------------------------- is_repairable: a structure without any recognised heavy atom
+contract(
+    "pdb2pqr.main:is_repairable", "C12",
+    params={"biomolecule": Obj("pdb2pqr.biomolecule:Biomolecule", num_heavy=Int, num_missing_heavy=Int),
+            "has_ligand": Bool},
+    requires=["biomolecule.num_heavy >= 0 and biomolecule.num_missing_heavy >= 0",
+              "biomolecule.num_missing_heavy <= biomolecule.num_heavy"],
+    ensures=[
+        # nothing to work on (and no ligand either) never returns normally: the run must fail loudly
+        "not (biomolecule.num_heavy == 0 and not has_ligand)",
+        "implies(result, biomolecule.num_missing_heavy > 0)",
+    ],
+    raises={"ValueError": "biomolecule.num_heavy == 0 and not has_ligand"},
+    name="is_repairable",
+    native=False,
+)
